@@ -119,6 +119,7 @@ def run(ctx):
     from . import protocols as PR_
 
     PR_.check_decrypt_passthrough(ctx, P)
+    F.check_combiner_lengths(ctx, "E4.len-range", P)
     d = ctx.need_fn("E6.combine", "SignCryptCiphertext<C>::decrypt_with_shares")
     if d is not None:
         F.check_no_dropping_adapters(ctx, "E7.adapters", P, [d.key, "SignCryptDecryptionKey<C>::from_shares"])
